@@ -1,4 +1,5 @@
 import BronVerif.Lemmas.Sigma
+import BronVerif.Gen.SigmaLenChecks
 import Mathlib.Data.Set.Function
 import Mathlib.Data.ZMod.Basic
 import Mathlib.Algebra.Group.TypeTags.Basic
@@ -518,6 +519,46 @@ theorem zk_answers_iff_opens {K C E R Z : Type} (openC : K → C → E → R →
     (ck : K) (c : C) (e : E) (r : R) : (zkRound4 openC respond ck c e r).isSome = openC ck c e r := by
   unfold zkRound4
   split <;> simp_all
+
+/-! ### Tie of the structural checks to the source
+
+`Gen/SigmaLenChecks.lean` is regenerated from /repo on every run (go/ast): every comparison of a
+`len(…)` in an `if` condition of the `Verify` methods of the count-prescribing verifiers, with the
+*role* of the other side.  The model verifiers above take the specified count as a parameter
+(`fischlinVerify ρ`, `andVerifyN n`, `orVerifyN n`, `batchVerifyK k`); this fact says that the Go
+verifiers compare each prescribed component with `!=` against configured state (a field of the
+verifier object, or a package constant) — not merely against the length of another component of
+the same proof. -/
+
+section source
+open BronVerif.Gen.SigmaLenChecks
+
+/-- the other side of the comparison is configured state: `recv.<field>` or `pkg.<Const>` -/
+def configured (o : Str) : Bool := o.take 5 == slc!"recv." || o.take 4 == slc!"pkg."
+
+/-- the table has a `len(what) != <configured state>` guard for `proto` -/
+def hasCountGuard (tbl : List Guard) (proto what : Str) : Bool :=
+  tbl.any fun g => g.proto == proto && g.what == what && g.op == slc!"!=" && configured g.other
+
+/-- the components whose number is prescribed, per verifier -/
+def prescribed : List (Str × Str) := [
+  (slc!"fischlin", slc!"A"), (slc!"fischlin", slc!"E"), (slc!"fischlin", slc!"Z"),
+  (slc!"randfischlin", slc!"A"), (slc!"randfischlin", slc!"E"), (slc!"randfischlin", slc!"Z"),
+  (slc!"sigand", slc!"statement"), (slc!"sigand", slc!"commitment"), (slc!"sigand", slc!"response"),
+  (slc!"sigor", slc!"statement"), (slc!"sigor", slc!"commitment"), (slc!"sigor", slc!"E"), (slc!"sigor", slc!"Z"),
+  (slc!"batch", slc!"Xs")]
+
+/-- every prescribed component count is compared against the verifier's configuration in the
+regenerated source facts (complete finite table) -/
+theorem verifiers_compare_counts_with_configuration :
+    (prescribed.all fun pw => hasCountGuard guards pw.1 pw.2) = true := by decide
+
+-- non-vacuity: the predicate is false on the table of a verifier that only compares the components
+-- with each other (the shape of the seeded defect)
+example : hasCountGuard [{ proto := slc!"fischlin", what := slc!"E", op := slc!"!=", other := slc!"len.A" }]
+    (slc!"fischlin") (slc!"E") = false := by decide
+
+end source
 
 /-! ### Range-type proofs (Paillier range / LPDL / modulus, CGGMP21 enc/affg/dec/fac/blummod/prm)
 
